@@ -634,3 +634,40 @@ def correspond_pyspace(chk, drv):
     chk.corr(0x110000)
     if ans != 'ok ' + ' '.join(real):
         chk.corr_diff({'table': 'isPySpace'}, ' '.join(real), ans, 'code points matched by \\s (re, str pattern)')
+
+
+# ------------------------------------------------------------------------------------------- big non-ASCII parts (C04, C17)
+# "for all documents / for every string" includes parts larger than any buffer a reader or writer may cut them into: text of
+# 2-, 3- and 4-byte UTF-8 characters ONLY, long enough to lie across every byte offset 2^k (k = 12..17) of the saved part.
+# A character of width w straddles a given offset unless the ASCII prefix has one particular length mod w: with three
+# consecutive paddings (0, 1, 2 ASCII letters) every offset inside a run of one width is straddled in at least one (w = 2),
+# two (w = 3, 4) of the three documents.  `order` rotates which width lies over which offsets.
+WIDE_CHARS = {2: u'\u00e9\u0416\u07ff\u00a0', 3: u'\u20ac\u4e2d\u0800\ufffd\u212b', 4: u'\U0001F600\U00010000\U0002070E\U0010FFFD'}
+STRADDLE_K = (12, 13, 14, 15, 16, 17)
+
+
+def straddle_text(pad, order=0, total=140000):
+    """pad ASCII letters, then three runs of multi-byte characters (one width each): bytes [0, 1/12) of `total`, [1/12, 1/3)
+    and the rest - so that, behind a part header of 1-3 KiB, each run covers two of the offsets 2^12..2^17"""
+    widths = [(2, 3, 4), (3, 4, 2), (4, 2, 3)][order % 3]
+    runs = [total // 12, total // 3 - total // 12, total - total // 3]
+    out = [u'abcdefghijklmnopqrstuvwxyz'[:pad]]
+    for w, nbytes in zip(widths, runs):
+        cs = WIDE_CHARS[w]
+        n = nbytes // w
+        out.append((cs * (n // len(cs) + 1))[:n])
+    return u''.join(out)
+
+
+def straddled_offsets(part):
+    """[k] such that byte offset 2^k of the part (bytes) falls inside a multi-byte UTF-8 sequence (plain byte test)"""
+    return [k for k in STRADDLE_K if len(part) > (1 << k) and (bytearray(part[(1 << k):(1 << k) + 1])[0] & 0xC0) == 0x80]
+
+
+def first_wide_offset(part):
+    """byte offset of the first non-ASCII byte of the part (-1: none).  The bytes in front of the text of a part depend on
+    what the process did before (prefix table, declarations): a replay re-creates the recorded offset mod 12, not the padding"""
+    for i, b in enumerate(bytearray(part)):
+        if b >= 0x80:
+            return i
+    return -1
